@@ -62,6 +62,23 @@ def body_tokens_ok(body: str):
     return bad
 
 
+_PATH_SAFE = []
+
+
+def _path_safe():
+    """the safe= literal of dump_cookie's quote(path, ...) call, read from the source under test (same
+    AST extraction that feeds Gen/Cookie.lean, on which `path_safe_excludes_separators` is proved)"""
+    if not _PATH_SAFE:
+        import os
+        import sys
+
+        sys.path.insert(0, os.path.join(os.path.dirname(os.path.dirname(os.path.abspath(__file__))), "tools"))
+        from gen.c13 import dump_cookie_path_safe
+
+        _PATH_SAFE.append(dump_cookie_path_safe())
+    return _PATH_SAFE[0]
+
+
 class ValueStream(Stream):
     name = "value"
     corpus = [{"v": hs(chr(c))} for c in range(256)] + [
@@ -193,7 +210,7 @@ class AttrStream(Stream):
         kw = py_kwargs(a)
         path = kw["path"]
         if path is not None:
-            path = quote(path, safe="%!$&'()*+,/:=@")
+            path = quote(path, safe=_path_safe())
         dom = kw["domain"]
         if dom:
             try:
